@@ -59,11 +59,13 @@ def check(ctx):
 
 def _r6(ctx):
     pkg = package(ctx.tree)
-    ih = pkg.method("InitCommand", "handle")
+    from .c20 import _init_handle, _alias_closure
+    ih = _init_handle(pkg)          # parsing helpers the command may have been split into are put back
     ctx.saw(INIT, "InitCommand.handle")
-    # by role: D = the local handed on as `ode_modifier=`; the loop = the outermost `for` over the option occurrences
-    # (a local assigned from self.option("ode-modifier")) 
-    D = next((k.value.id for c in ast.walk(ih) if isinstance(c, ast.Call) for k in c.keywords if k.arg == "ode_modifier" and isinstance(k.value, ast.Name)), "ode_modifier")
+    # by role: D = the local handed on as `ode_modifier=` (or the local it is a plain alias of); the loop = the outermost `for`
+    # over the option occurrences (a local assigned from self.option("ode-modifier"))
+    D = "(?:" + "|".join(map(re.escape, _alias_closure(ih, next((k.value.id for c in ast.walk(ih) if isinstance(c, ast.Call) for k in c.keywords if k.arg == "ode_modifier" and isinstance(k.value, ast.Name)), "ode_modifier")))) + ")"
+    Dn = D[3:-1].split("|")[-1]
     optvars = {t.id for n in ast.walk(ih) if isinstance(n, ast.Assign) and "option('ode-modifier')" in ast.unparse(n.value) for t in n.targets if isinstance(t, ast.Name)}
     loops = [n for n in ast.walk(ih) if isinstance(n, ast.For) and isinstance(n.iter, ast.Name) and n.iter.id in optvars]
     if len(loops) != 1:
@@ -97,21 +99,21 @@ def _r6(ctx):
             for n in ast.walk(st):
                 if isinstance(n, ast.Assign):
                     for t in n.targets:
-                        if isinstance(t, ast.Name) and t.id == D:
-                            problems.append((n.lineno, f"`{D}` is re-bound inside the loop over the option occurrences: earlier occurrences are forgotten"))
-                        if isinstance(t, ast.Subscript) and ast.unparse(t.value) == D:
+                        if isinstance(t, ast.Name) and re.fullmatch(D, t.id):
+                            problems.append((n.lineno, f"`{Dn}` is re-bound inside the loop over the option occurrences: earlier occurrences are forgotten"))
+                        if isinstance(t, ast.Subscript) and re.fullmatch(D, ast.unparse(t.value)):
                             if any(absent_guard(g, p_) for g, p_ in guards):
                                 creates += 1
                             else:
                                 problems.append((n.lineno, f"`{ast.unparse(t)} = ...` is not restricted to a species seen for the first time: it replaces the terms collected so far for that species"))
-                    if isinstance(n.value, ast.Call) and isinstance(n.value.func, ast.Attribute) and n.value.func.attr == "setdefault" and ast.unparse(n.value.func.value) == D \
+                    if isinstance(n.value, ast.Call) and isinstance(n.value.func, ast.Attribute) and n.value.func.attr == "setdefault" and re.fullmatch(D, ast.unparse(n.value.func.value)) \
                             and isinstance(n.targets[0], ast.Name):
                         entry_alias.add(n.targets[0].id)
                         creates += 1
                 if isinstance(n, ast.Call) and isinstance(n.func, ast.Attribute):
                     base = ast.unparse(n.func.value)
-                    if n.func.attr in ("update", "clear", "pop", "popitem", "__setitem__") and base == D:
-                        problems.append((n.lineno, f"`{D}.{n.func.attr}(...)` replaces whole entries: when a species is named in two --ode-modifier occurrences only the terms of the last one survive"))
+                    if n.func.attr in ("update", "clear", "pop", "popitem", "__setitem__") and re.fullmatch(D, base):
+                        problems.append((n.lineno, f"`{Dn}.{n.func.attr}(...)` replaces whole entries: when a species is named in two --ode-modifier occurrences only the terms of the last one survive"))
                     if n.func.attr in ("append", "extend"):
                         m_ = re.fullmatch(rf"(?:{D}\[\w+\]|(\w+))\[['\"](\w+)['\"]\]", base)
                         if m_ and (m_.group(1) is None or m_.group(1) in entry_alias):
@@ -135,7 +137,7 @@ MOD_ATTRS = {"rate_modifier", "ode_modifier", "_rate_modifier", "_ode_modifier",
 def _whole_copy(v: ast.AST) -> bool:
     """value forms that carry a whole table: X, X.copy(), dict(X), copy.deepcopy(X), and `<that> if X else {}`"""
     if isinstance(v, ast.IfExp):
-        return all(_whole_copy(x) or (isinstance(x, ast.Dict) and not x.keys) for x in (v.body, v.orelse))
+        return all(_whole_copy(x) or ast.unparse(x) in ("{}", "dict()") for x in (v.body, v.orelse))
     if isinstance(v, (ast.Name, ast.Attribute)):
         return True
     if isinstance(v, ast.Call):
@@ -145,6 +147,25 @@ def _whole_copy(v: ast.AST) -> bool:
         if f in ("dict", "copy.deepcopy", "deepcopy", "copy.copy") and len(v.args) == 1 and not v.keywords:
             return _whole_copy(v.args[0])
     return False
+
+
+def _package_helper(pkg, file, cls, call):
+    """(callee, receiver) of a call to a function of the same module / a method of the same class reached through self or cls"""
+    fn = call.func
+    if isinstance(fn, ast.Name) and (file, fn.id) in pkg.functions:
+        return pkg.functions[(file, fn.id)], None
+    if cls and isinstance(fn, ast.Attribute) and isinstance(fn.value, ast.Name) and fn.value.id in ("self", "cls") and cls in pkg.classes:
+        _, callee = pkg.resolve(cls, fn.attr)
+        if callee is not None:
+            return callee, fn.value
+    return None
+
+
+def _helpers_inlined(pkg, file, cls, value):
+    """the expression with calls to one-expression helpers of the package replaced by what they return (sa.normalize)"""
+    import copy
+    from ..normalize import _ExprInliner
+    return _ExprInliner(lambda c: _package_helper(pkg, file, cls, c), None).visit(copy.deepcopy(value))
 
 
 def _r7(ctx):
@@ -170,11 +191,14 @@ def _r7(ctx):
                             if isinstance(t, ast.Attribute) and t.attr in MOD_ATTRS:
                                 n += 1
                                 key = f"{qual}:{ast.unparse(t)}"
-                                val = ch.value
+                                val = _helpers_inlined(pkg, f, qual.split(".")[0] if "." in qual else None, ch.value) if ch.value is not None else None
                                 whole = val is not None and _whole_copy(val) and not isinstance(ch, ast.AugAssign)
                                 owner_self = isinstance(t.value, ast.Name) and t.value.id == "self"
                                 if whole:
                                     ctx.ok("R7", key, (f, ch.lineno), "the whole table is stored (copy)")
+                                elif isinstance(val, ast.Call) and _package_helper(pkg, f, qual.split(".")[0] if "." in qual else None, val) is not None and not isinstance(ch, ast.AugAssign):
+                                    # a helper of the package with statements of its own: what it returns is not followed here
+                                    ctx.unrec("R7", key, (f, ch.lineno), f"the table is stored through the helper `{ast.unparse(val.func)}(..)`, whose body this rule cannot reduce to an expression")
                                 else:
                                     ctx.bad("R7", key, (f, ch.lineno), ("the network's modifier table is replaced by a rewritten one" if not owner_self else "the stored modifier table is not the whole table given") +
                                             ": entries the user supplied can vanish between the configuration file and the generator (keys are matched against idxfromfile only inside "
@@ -199,7 +223,19 @@ def _r1(ctx, m):
         if lst and lst[0][0][0] == "meth" and lst[0][0][2] == "_assign_rates" and any(simp(a) == m.REAC for a in lst[0][0][3]):
             rname = nm
     stores = [f for f in fl.facts if f.target == rname and f.kind not in ("init",)]
-    _truthiness_selection(ctx, m)
+    # the stored statement may be composed by a small helper method (`self._statement(sym, idx, value)`): what the helper returns
+    # for these arguments, case by case -- the rules below read that value
+    pkg = package(ctx.tree)
+    stored = {}
+    for f in stores:
+        v = f.value
+        if f.kind == "store" and v is not None and v[0] == "meth" and v[1] in (("param", "self"), ("param", "cls")) and len(v) == 5:
+            _, callee = pkg.resolve("TemplateLoader", v[2])
+            inl = fl._inline(callee, v[3], dict(v[4])) if callee is not None and all(k != "**" for k, _ in v[4]) else None
+            if inl is not None:
+                v = inl
+        stored[id(f)] = v
+    _truthiness_selection(ctx, m, [(stored[id(f)], f.line) for f in stores if stored[id(f)] is not f.value])
     if len(stores) != 1:
         (ctx.bad if stores else ctx.missing)("R1", "rateeqns:writers", W,
                                              f"expected exactly one override store into rateeqns, found {len(stores)} ({[f.kind + '@' + str(f.line) for f in stores]})")
@@ -230,7 +266,9 @@ def _r1(ctx, m):
                   expected="if key == reac.idxfromfile", found="; ".join(("" if p else "not ") + show(c)[:90] for c, p in g))
         ctx.check(simp(f.index) == idx, "R1", "override:slot", w, "the replaced entry is rateeqns[idx] of the same reaction's enumerate index",
                   expected="rateeqns[idx]", found=show(simp(f.index)))
-        lw = lower(f.value)
+        from ..valueflow import peval
+        sv = simp(peval(stored[id(f)], {}))         # (conditions on constant arguments, e.g. a defaulted parameter, are decided)
+        lw = lower(sv)
         okv = False
         if len(lw.holes) == 2 and not lw.seqs:
             hs = {k: (v[1] if v[0] == "fmt" else v) for k, v in lw.holes.items()}
@@ -238,8 +276,12 @@ def _r1(ctx, m):
             hv = [k for k, v in hs.items() if v == ("val", RM, L2)]
             if hi and hv:
                 okv = "".join(lw.text.split()) == f"k[{hi[0]}]={hv[0]};"
-        ctx.check(okv, "R1", "override:statement", w, "the statement assigns the user's expression to k[idx] of that reaction",
-                  expected="k[{idx}] = {value};", found=lw.text)
+        if not okv and sv[0] not in ("fstr", "const", "join"):
+            # not a piece of text this rule can read (built by a helper with loops, chosen by a run-time condition, ...)
+            ctx.unrec("R1", "override:statement", w, f"the stored statement is not reconstructible as text: {show(sv)[:120]}")
+        else:
+            ctx.check(okv, "R1", "override:statement", w, "the statement assigns the user's expression to k[idx] of that reaction",
+                      expected="k[{idx}] = {value};", found=lw.text)
         # no early exit from either loop
         # `continue` only skips the rest of one iteration (a guard clause); what leaves a loop early is break / return
         brk = [x for x in fl.facts if x.kind in ("break", "return") and any(l.id in (L1, L2) for l in x.loops)]
@@ -248,7 +290,7 @@ def _r1(ctx, m):
                   found="; ".join(f"{x.kind}@{x.line}" for x in brk))
 
 
-def _truthiness_selection(ctx, m):
+def _truthiness_selection(ctx, m, extra=()):
     """Whether an override applies is a question of PRESENCE of the key; the override VALUE (a user expression, possibly the number
     0 that switches a reaction off) is never used as a condition.  Looked for wherever the modifier table travels: in
     _prepare_ode_content and in every method of TemplateLoader the table is handed to."""
@@ -298,6 +340,12 @@ def _truthiness_selection(ctx, m):
                         return True
             return False
         conds = []
+        if fn is m.func:
+            # values composed by a helper for the override store: the conditions inside them count as well
+            for v_, line_ in extra:
+                for x in walk(v_):
+                    if isinstance(x, tuple) and x and x[0] in ("ifexp", "phi") and len(x) == 4:
+                        conds.append((x[1], line_))
         for f in fl.facts:
             conds += [(c, f.line) for c, _ in f.guards]
             if f.value is not None:
@@ -445,11 +493,19 @@ def _r3(ctx):
         ctx.check(c.value[1] == NET and c.seq < p[4] and not p[1] and not p[2], "R3", "render:reindex-before-prepare", (FILE, c.line),
                   "network.reindex() precedes the single, unconditional _prepare_ode_content call", found=f"reindex seq {c.seq}, prepare seq {p[4]}")
         # arguments: rate_modifier = network.rate_modifier (same object the user set)
-        args = p[0][3]
-        ok = len(args) == 4 and simp(args[2]) == ("attr", NET, "rate_modifier") and simp(args[3]) == ("attr", NET, "ode_modifier") and \
-            simp(args[1]) == ("attr", NET, "_species_kwargs")
+        # bound to the callee's parameters, whether passed by position or by keyword
+        params = [a.arg for a in pkg.method("TemplateLoader", "_prepare_ode_content").args.args][1:]
+        given = dict(zip(params, p[0][3]))
+        extra = len(p[0][3]) > len(params)
+        for k_, v_ in p[0][4]:
+            if k_ in given or k_ not in params:
+                extra = True
+            given[k_] = v_
+        kwpar = params[1] if len(params) > 1 else None       # the species keywords: second parameter of the generator
+        ok = not extra and len(params) == 4 and set(given) == set(params) and simp(given.get("rate_modifier", ())) == ("attr", NET, "rate_modifier") and \
+            simp(given.get("ode_modifier", ())) == ("attr", NET, "ode_modifier") and simp(given[kwpar]) == ("attr", NET, "_species_kwargs")
         ctx.check(ok, "R3", "render:modifier-args", (FILE, p[3]), "_prepare_ode_content receives network._species_kwargs, network.rate_modifier, network.ode_modifier",
-                  found=", ".join(show(simp(a))[:40] for a in args))
+                  found=", ".join(f"{k_}={show(simp(a))[:40]}" for k_, a in given.items()))
     rfn = pkg.method("Network", "reindex")
     ctx.saw(NETWORK, "Network.reindex")
     rfl = Flow(rfn, NETWORK)
@@ -561,11 +617,14 @@ def _r5(ctx, m):
             k2 |= _str_keys(n)
     sets[(EXAMPLE, "ExampleCommand.handle (reader)")] = k2
     # writer: init.py
-    h = pkg.method("InitCommand", "handle")
+    from .c20 import _init_handle, _option_origins
+    h = _init_handle(pkg)
     ctx.saw(INIT, "InitCommand.handle")
     k3 = set()
+    org = _option_origins(h)
     for n in ast.walk(h):
-        if isinstance(n, ast.For) and "ode_modifier_str" in ast.unparse(n.iter):
+        # by role: the loop(s) over the occurrences of --ode-modifier
+        if isinstance(n, ast.For) and isinstance(n.iter, ast.Name) and org.get(n.iter.id) == "ode-modifier":
             for d in ast.walk(n):
                 if isinstance(d, ast.Dict):
                     k3 |= {k.value for k in d.keys if isinstance(k, ast.Constant)}
